@@ -16,7 +16,7 @@ PredSet(name) ==
       [] name = "p2x" -> {P(<<1, 0>>, 0), P(<<-1, 0>>, 0), P(<<0, 1>>, 0), P(<<1, 1>>, 1), P(<<-1, -1>>, -2), P(<<1, 0>>, -1)}
       [] name = "p2one" -> {P(<<1, 1>>, 1)}
       [] name = "p1w" -> {P(<<1>>, 0), P(<<1>>, 1), P(<<-1>>, -1)}
-      [] name = "p1v" -> {P(<<1>>, 1), P(<<1>>, 3)}
+      [] name = "p1v" -> {P(<<1>>, 0), P(<<1>>, 1), P(<<1>>, 2), P(<<-1>>, -3)}
       [] name = "p1a" -> {P(<<1>>, 0), P(<<1>>, 1), P(<<-1>>, 0)}
       [] name = "p1s" -> {P(<<1>>, 0), P(<<-1>>, -1)}
       [] name = "pp2s" -> {Aff(<<<<1, 0>>, <<0, 1>>>>, <<0, 1>>), P(<<1, 1>>, 1)}
@@ -54,6 +54,13 @@ TreesN(n, Pred, Term, K) ==
     \cup (IF n = 0 THEN {}
           ELSE {Dec(p, kids) : p \in Pred,
                                kids \in {kt \in KidTuples(K, n - 1, Pred, Term, K) : \E j \in 1..K : kt[j].t # "M"}})
+\* every leaf gets a different function: the first bias component is shifted by a code of the leaf's path (root 1, child 2c + label),
+\* so that routing an input to a wrong terminal (e.g. after pruning a feasible branch) changes the represented function
+RECURSIVE DistinctLeaves(_, _)
+DistinctLeaves(x, code) ==
+    CASE x.t = "M" -> x
+      [] x.t = "L" -> Leaf([x.a EXCEPT !.b = [i \in 1..Len(x.a.b) |-> IF i = 1 THEN x.a.b[i] + 10 * code * x.a.q ELSE x.a.b[i]]])
+      [] x.t = "D" -> Dec(x.a, [j \in 1..Len(x.kids) |-> DistinctLeaves(x.kids[j], 2 * code + j - 1)])
 \* total trees only (every decision has all reachable children)
 RECURSIVE IsTotal(_)
 IsTotal(x) == x.t = "L" \/ (x.t = "D" /\ \A j \in 1..Len(x.kids) : (j <= Pow2(Len(x.a.m)) => x.kids[j].t # "M" /\ IsTotal(x.kids[j])))
